@@ -11,8 +11,9 @@ CLAIMED = {
         "caches agree with the backend afterwards, and finds the violation for a two-step MKDIR, for READDIR dropping vanished entries (F29b) and "
         "for cache puts overtaken by an invalidation (F29a). The harness (built with -race) drives 2-4 client goroutines x 2-4 requests through "
         "HandleCall over the thread-safe vfs backend with seeded yields/spins/sleeps before and after every backend operation, on distinct names "
-        "sharing directories and handles, under 8 cache configurations, plus contended histories (same names and handles) and directed "
-        "schedules with blocking gates; every request is logged with invocation/response stamps of one atomic counter, arguments and decoded "
+        "sharing directories and handles, under 8 cache configurations, plus contended histories (same names and handles), attribute storms (simultaneous GETATTRs of files of different sizes, size and fileid "
+        "compared), re-export rounds (Unexport, then MNT + READDIRPLUS by all clients at once behind a barrier, handle table projected after every "
+        "round) and directed schedules with blocking gates; every request is logged with invocation/response stamps of one atomic counter, arguments and decoded "
         "results, and after the join the backend tree, both handle maps and the unexpired cache entries are read in-package. LinearizeTrace.tla "
         "makes every history an initial state and lets TLC search (depth-first queue, one worker) for an order consuming all requests whose "
         "every step is an allowed CoreOps outcome with the recorded reply (LOOKUP type, GETATTR type/size/mode, READ count/data/eof, READDIR "
@@ -23,5 +24,5 @@ CLAIMED = {
         "at backend-operation boundaries only; histories use plain names, root credentials, files below 200 bytes; ownership and times are not "
         "compared; a race report counts only when the innermost non-library frame of both accesses is absnfs code (harness/vfs frames = exit 2); "
         "SETATTR on shared directories and LOOKUP of another client's names are outside the 'distinct names' premise and not generated in "
-        "linearizability histories; findings F29a / F29b are listed with exact guards and proposed repairs"),
+        "linearizability histories; findings F29a-F29d have exact guards (F29b, F29c repaired in /repo; F29a repair proposed; F29d, READDIRPLUS entry attributes fetched entry by entry, listed known)"),
 }
